@@ -89,7 +89,7 @@ CLOCK = "CLOCK"
 
 class VThread:
     __slots__ = ("tid", "name", "sem", "target", "args", "kwargs", "started", "finished",
-                 "blocked", "wake", "label", "exc", "os_thread", "daemon", "npoints", "is_main", "done")
+                 "blocked", "wake", "label", "exc", "os_thread", "daemon", "npoints", "is_main", "done", "cthread")
 
     def __init__(self, tid, name):
         self.tid, self.name = tid, name
@@ -106,6 +106,7 @@ class VThread:
         self.npoints = 0
         self.is_main = False
         self.done = None
+        self.cthread = None
 
     def __repr__(self):
         return "<vt%d %s %s>" % (self.tid, self.name, self.label)
@@ -468,7 +469,13 @@ class CThread:
         if self._vt is not None:
             raise RuntimeError("threads can only be started once")
         s = self._s
+        fail = getattr(s, "fail_thread_start", None)
+        if fail and self._name in fail:
+            # injected environment answer: the operating system refuses one more thread
+            fail.discard(self._name)
+            raise RuntimeError("can't start new thread")
         self._vt = s.spawn(self.run, name=self._name, daemon=self.daemon)
+        self._vt.cthread = self
         s.note("thread.start", self._vt.tid, self._name)
         s.start(self._vt)
 
@@ -490,6 +497,25 @@ class CThread:
     @property
     def ident(self):
         return None if self._vt is None else self._vt.tid
+
+
+class _MainCThread:
+    name, daemon, ident = "MainThread", False, 0
+
+    def is_alive(self):
+        return True
+
+
+_MAIN_CTHREAD = _MainCThread()
+
+
+def current_thread():
+    """threading.current_thread() for code running under the scheduler: the CThread object of the virtual thread"""
+    s = ACTIVE
+    me = s.me() if s is not None else None
+    if me is None or me.cthread is None:
+        return _MAIN_CTHREAD
+    return me.cthread
 
 
 class CEvent:
